@@ -14,6 +14,10 @@
                                    a helper type its own block declares, a `::core::name!` macro, or
                                    -- in raw token fragments -- an identifier of the explicit
                                    allowlist [template_idents] (plus the computed hasher parameter);
+    - H1p [C19_primitives_qualified] that allowlist admits none of the primitive type names the
+                                   templates mention (`bool`, `u8`, `str`): wherever a template writes
+                                   one, it is a segment of a global path (`::core::primitive::bool`,
+                                   `*const ::core::primitive::u8`, `&'static ::core::primitive::str`);
     - H2 [C19_bindings_distinct]   the bindings introduced in one scope are pairwise distinct and
                                    never rebind a parameter or an enclosing binding;
     - H3 [C19_hasher_fresh]        the type parameter of `fn hash<..>` differs from every type and
@@ -22,8 +26,10 @@
 
     RESIDUAL EXPOSURES (the property as worded is FALSE on the current tree; each is shown below by
     a witness of the model and was confirmed with rustc 1.95 on the real macro):
-    - R1 primitive type names are written unqualified: `-> bool` (PartialEq), `*const u8` (unions),
-      `&'static str` (Debug helper).  `struct bool;` next to `#[educe(PartialEq)]` => E0053.
+    - R1 (CLOSED by the repair of the templates: primitive type names used to be written unqualified,
+      `-> bool` (PartialEq), `*const u8` (unions), `&'static str` (Debug helper), and `struct bool;`
+      next to `#[educe(PartialEq)]` gave E0053.  They are now `::core::primitive::..`; the allowance
+      for them is gone from [template_idents] and [C19_primitives_qualified] replaces the witness.)
     - R2 user fragments are spliced INSIDE the scope of the template's parameters and bindings: a
       `method = state` / a default expression / a where-predicate mentioning `state`, `other`, `f`,
       `source`, `__H`, `_s_x` .. is captured.  `Hash(method(state))` => E0618.
@@ -50,6 +56,26 @@ Theorem C19_absolute_paths :
     expand F d = Ok items -> forallb (item_hyg (request_cfg F d)) items = true.
 Proof. exact expand_hyg. Qed.
 Print Assumptions C19_absolute_paths.
+
+(** ... under an allowlist that admits NONE of the primitive type names `bool`, `u8`, `str`
+    ([prim_idents]): in every expansion, no token fragment written by a template has one of them
+    (or any identifier outside [template_idents] and the hasher parameter) in a position where it is
+    looked up at the derive site.  The templates spell them `::core::primitive::bool` (signature of
+    `eq`), `*const ::core::primitive::u8` (byte views of the union impls) and
+    `&'static ::core::primitive::str` (the helper `Educe__RawString`): segments of a global `::core`
+    path, which [tok_step] reads without consulting the allowlist. *)
+Theorem C19_primitives_qualified :
+  forall (F : features) (d : dinput) (items : list item),
+    expand F d = Ok items ->
+    (forall s, In s prim_idents -> tallow (u_fresh (request_cfg F d)) s = false) /\
+    forallb (item_hyg (request_cfg F d)) items = true.
+Proof.
+  intros F d items H. split; [|exact (expand_hyg F d items H)].
+  intros s Hs. change (u_fresh (request_cfg F d)) with (hasher_ident (d_generics d)).
+  destruct (hasher_ident_prefix (d_generics d)) as [k ->].
+  cbn in Hs. destruct Hs as [<-|[<-|[<-|[]]]]; reflexivity.
+Qed.
+Print Assumptions C19_primitives_qualified.
 
 (** ... and the predicates the handlers add to the where-clause (all twelve build them with
     [bound_preds] from `::core` trait paths): each is a predicate of the request's `bound(..)`, or
@@ -177,6 +203,18 @@ Module Example.
     toks_hyg (tallow "__H") [P "&"; I "mut"; P "::"; I "alloc"; P "::"; I "string"; P "::"; I "String"] = false /\
     toks_hyg (tallow "__H") partial_cmp_sig = true.
   Proof. vm_compute. repeat split; reflexivity. Qed.
+  (** primitive type names: the unqualified spellings the templates used before the repair are
+      refused, the qualified ones they emit now pass *)
+  Example rejects_bare_primitives :
+    toks_hyg (tallow "__H") [G Paren [P "&"; I "self"; P ","; I "other"; P ":"; P "&"; I "Self"];
+                             P "->"; I "bool"] = false /\
+    toks_hyg (tallow "__H") [P "*"; I "const"; I "u8"] = false /\
+    toks_hyg (tallow "__H") [P "&"; TLife "static"; I "str"] = false /\
+    toks_hyg (tallow "__H") eq_sig = true /\
+    toks_hyg (tallow "__H") const_u8_ty = true /\
+    toks_hyg (tallow "__H") [P "&"; TLife "static"; P "::"; I "core"; P "::"; I "primitive"; P "::"; I "str"] = true /\
+    toks_hyg (tallow "__H") map_builder_template = true.
+  Proof. vm_compute. repeat split; reflexivity. Qed.
   (** bindings: the same name twice in a pattern, a binding equal to a parameter *)
   Example rejects_binders :
     expr_binds (["self"; "other"], [])
@@ -194,14 +232,8 @@ End Example.
 Module Residual.
   Import Example.
 
-  (** R1: without the three primitive type names the signature of `eq`, the casts of the union
-      handlers and the Debug helper are refused: the templates DO write them unqualified *)
-  Definition no_prims (s : string) : bool := tallow "__H" s && negb (mem_str s prim_idents).
-  Theorem C19_residual_primitive_names :
-    toks_hyg no_prims eq_sig = false /\
-    toks_hyg no_prims [P "*"; I "const"; I "u8"] = false /\
-    toks_hyg no_prims map_builder_template = false.
-  Proof. vm_compute. repeat split; reflexivity. Qed.
+  (** (R1, unqualified primitive type names, is closed: see [C19_primitives_qualified] and
+      [Example.rejects_bare_primitives] above) *)
 
   (** R2: #[educe(Hash)] struct S { #[educe(Hash(method(state)))] a: u8 } is accepted and emits
       `fn hash<__H: ::core::hash::Hasher>(&self, state: &mut __H) { state(&self.a, state); }`:
